@@ -36,10 +36,6 @@ Proof. induction l as [|z r IH]; intros H; [contradiction|]. cbn.
 
 (* ---------------------------------------------------------------------------------------------------------- *)
 (* node lists: lookup and the primitive updates *)
-Definition idsL (l : list node) := map nid l.
-Definition findn (l : list node) (i : nat) := find (fun n => nid n =? i) l.
-Definition Sof (l : list node) i := match findn l i with Some n => succs n | None => [] end.
-Definition Pof (l : list node) i := match findn l i with Some n => preds n | None => [] end.
 
 Lemma findn_Some l i n : findn l i = Some n -> In n l /\ nid n = i.
 Proof. intros H. apply find_some in H. destruct H as [H1 H2]. apply Nat.eqb_eq in H2. auto. Qed.
@@ -103,11 +99,6 @@ Proof. intros Hg. unfold Pof. rewrite findn_map_node by exact Hg.
 
 (* ---------------------------------------------------------------------------------------------------------- *)
 (* the invariant *)
-Definition InvL (l : list node) : Prop :=
-  NoDup (idsL l) /\
-  (forall a b, cnt (Sof l a) b = cnt (Pof l b) a) /\
-  (forall a b, In b (Sof l a) -> In b (idsL l)).
-Definition Inv (w : net) : Prop := InvL (nodes w).
 
 Lemma InvL_pred_closed l : InvL l -> forall a b, In a (Pof l b) -> In a (idsL l).
 Proof. intros [_ [Hs _]] a b H. apply cnt_pos_In in H. rewrite <- Hs in H. apply cnt_pos_In in H.
@@ -405,10 +396,6 @@ Proof. intros HI Hi. pose proof HI as [H1 [H2 H3]]. unfold remove_node.
 
 (* ---------------------------------------------------------------------------------------------------------- *)
 (* reindex_nodes *)
-Definition mf (m : list (nat * nat)) (x : nat) : nat := match lookup m x with Some y => y | None => x end.
-Definition rn (m : list (nat * nat)) (n : node) : node :=
-  mkNode (mf m (nid n)) (map (mf m) (preds n)) (map (mf m) (succs n))
-         (map (fun p => if Z.eqb p (dummy_idx (nid n)) then dummy_idx (mf m (nid n)) else p) (prods n)) (ext n) (dem n).
 
 Lemma omap_lookup m l l' : omap (lookup m) l = Some l' -> l' = map (mf m) l /\ forall x, In x l -> lookup m x = Some (mf m x).
 Proof. revert l'. induction l as [|x r IH]; intros l' H; cbn in H.
@@ -575,8 +562,6 @@ Lemma Inv_empty : Inv empty_net. Proof. exact InvL_nil. Qed.
 
 (* ---------------------------------------------------------------------------------------------------------- *)
 (* views *)
-Definition edge_dec : forall x y : nat * nat, {x = y} + {x <> y}.
-Proof. decide equality; apply Nat.eq_dec. Defined.
 Notation cntE l e := (count_occ edge_dec l e).
 
 Lemma index_lookupL l n : NoDup (idsL l) -> In n l -> findn l (nid n) = Some n.
@@ -641,11 +626,6 @@ Proof. intros HI. unfold sink_nodes. rewrite filter_In. apply and_iff_ctx. intro
 
 (* ---------------------------------------------------------------------------------------------------------- *)
 (* reachability: descendants / ancestors *)
-Inductive rch (nb : nat -> list nat) : nat -> nat -> Prop :=
-| rch1 a b : In b (nb a) -> rch nb a b
-| rchS a c b : In c (nb a) -> rch nb c b -> rch nb a b.
-(* reachability in the network: a path of one or more arcs (arcs = successor lists) *)
-Definition path (w : net) : nat -> nat -> Prop := rch (succs_of w).
 
 Lemma rch_snoc nb a b c : rch nb a b -> In c (nb b) -> rch nb a c.
 Proof. induction 1 as [a b H|a c' b H _ IH]; intros Hc.
@@ -729,7 +709,6 @@ Proof. intros HI. unfold ancestors. destruct (reach_set _ _ a) as [S|] eqn:R; [|
 
 (* ---------------------------------------------------------------------------------------------------------- *)
 (* reindex_nodes with an injective renaming yields the image network *)
-Definition ren_edge (f : nat -> nat) (e : nat * nat) := (f (fst e), f (snd e)).
 Lemma edges_rn m l :
   flat_map (fun n => map (fun s => (nid n, s)) (succs n)) (map (rn m) l)
   = map (ren_edge (mf m)) (flat_map (fun n => map (fun s => (nid n, s)) (succs n)) l).
@@ -818,3 +797,69 @@ Proof. intros HI. unfold ancestors.
   destruct (reach_set_fuel (g_pred w) (ids w) a) as [S E].
   - intros x y. unfold g_pred. apply (InvL_pred_closed _ HI).
   - unfold ids in E. rewrite map_length in E. rewrite E. cbn. eauto. Qed.
+
+(* ---------------------------------------------------------------------------------------------------------- *)
+(* final statements used by Props/C18.v *)
+Lemma reachable_Inv w : reachable w -> Inv w.
+Proof. intros [ops [Hv H]]. eapply Inv_run; [exact Inv_empty|exact Hv|exact H]. Qed.
+
+Theorem adj_symmetric_run ops w : ops_valid ops empty_net -> run ops empty_net = Ok w ->
+  NoDup (ids w) /\
+  (forall a b, count_occ Nat.eq_dec (succs_of w a) b = count_occ Nat.eq_dec (preds_of w b) a) /\
+  (forall a b, In b (succs_of w a) -> In a (ids w) /\ In b (ids w)) /\
+  (forall a b, In a (preds_of w b) -> In a (ids w) /\ In b (ids w)).
+Proof. intros Hv H. assert (HI : Inv w) by (apply reachable_Inv; exists ops; auto).
+  pose proof HI as [H1 [H2 H3]]. split; [exact H1|]. split; [exact H2|]. split.
+  - intros a b Hb. split; [|eapply H3; eauto]. destruct (find_node w a) as [n|] eqn:F.
+    + apply findn_Some in F. destruct F as [F1 F2]. subst. apply in_map. exact F1.
+    + unfold succs_of in Hb. rewrite F in Hb. destruct Hb.
+  - intros a b Ha. split; [eapply (InvL_pred_closed _ HI); eauto|eapply (InvL_pred_is_node _ HI); eauto]. Qed.
+
+Theorem edges_view_final w : reachable w -> forall a b,
+  count_occ edge_dec (edges w) (a, b) = count_occ Nat.eq_dec (succs_of w a) b /\
+  (In (a, b) (edges w) <-> In b (succs_of w a)) /\
+  (In (a, b) (edges w) <-> In a (preds_of w b)) /\
+  (In (a, b) (edges w) -> In a (ids w) /\ In b (ids w)).
+Proof. intros R a b. apply reachable_Inv in R. split; [apply edges_view_cnt; exact R|].
+  split; [apply edges_view; exact R|]. split; [apply edges_view_pred; exact R|apply edges_endpoints; exact R]. Qed.
+Theorem sources_sinks_final w : reachable w -> forall n,
+  (In n (source_nodes w) <-> In n (nodes w) /\ forall a, ~ In (a, nid n) (edges w)) /\
+  (In n (sink_nodes w) <-> In n (nodes w) /\ forall b, ~ In (nid n, b) (edges w)).
+Proof. intros R n. apply reachable_Inv in R. split; [apply sources_view|apply sinks_view]; exact R. Qed.
+Theorem index_lookup_final w : reachable w ->
+  NoDup (ids w) /\
+  (forall n, In n (nodes w) -> find_node w (nid n) = Some n) /\
+  (forall i n, find_node w i = Some n -> In n (nodes w) /\ nid n = i) /\
+  (forall i, find_node w i = None <-> ~ In i (ids w)).
+Proof. intros R. apply index_lookup. apply reachable_Inv. exact R. Qed.
+Theorem reach_views_final w a : reachable w ->
+  (exists D, descendants w a = Some D /\ forall b, In b D <-> path w a b /\ b <> a) /\
+  (exists A, ancestors w a = Some A /\ forall b, In b A <-> path w b a /\ b <> a).
+Proof. intros R. apply reachable_Inv in R. split.
+  - destruct (descendants_total w a R) as [D E]. exists D. split; [exact E|apply descendants_view; assumption].
+  - destruct (ancestors_total w a R) as [A E]. exists A. split; [exact E|apply ancestors_view; assumption]. Qed.
+Theorem remove_node_final w i : reachable w -> In i (ids w) ->
+  exists w', remove_node w i = Ok w' /\
+    (forall x, In x (ids w') <-> In x (ids w) /\ x <> i) /\
+    (forall x y, x <> i -> y <> i ->
+       count_occ Nat.eq_dec (succs_of w' x) y = count_occ Nat.eq_dec (succs_of w x) y /\
+       count_occ Nat.eq_dec (preds_of w' x) y = count_occ Nat.eq_dec (preds_of w x) y).
+Proof. intros R Hi. apply reachable_Inv in R. destruct (remove_node_spec w i R Hi) as [w3 [E [_ [H1 [_ [H2 H3]]]]]].
+  exists w3. split; [exact E|]. split; [exact H1|]. intros x y Hx Hy. split; [apply H2|apply H3]; assumption. Qed.
+Theorem reindex_iso_final w m w' : reachable w -> injective_on m (ids w) -> reindex w m = Ok w' ->
+  let f := mf m in
+  reachable w' /\
+  ids w' = map f (ids w) /\
+  (forall a, In a (ids w) -> succs_of w' (f a) = map f (succs_of w a) /\ preds_of w' (f a) = map f (preds_of w a)) /\
+  edges w' = map (ren_edge f) (edges w) /\
+  (forall a, In a (ids w) ->
+     prods_of w' (f a) = map (fun p => if Z.eqb p (dummy_idx a) then dummy_idx (f a) else p) (prods_of w a)).
+Proof. intros R Hinj E. cbn zeta. destruct (reindex_iso w m w' (reachable_Inv w R) Hinj E) as [_ [_ [H1 [H2 [H3 [H4 [H5 _]]]]]]].
+  split; [|split; [exact H1|split; [|split; [exact H4|exact H5]]]].
+  - destruct R as [ops [Hv Hr]]. exists (ops ++ [OReindex m]). split.
+    + clear - Hv Hr Hinj E. revert Hv Hr. generalize empty_net. induction ops as [|o r IH]; intros w0 Hv Hr.
+      * cbn in Hr. inversion Hr; subst. cbn [app ops_valid op_valid apply_op]. rewrite E. cbn. auto.
+      * cbn [app ops_valid] in *. destruct Hv as [Hv1 Hv2]. split; [exact Hv1|]. rewrite run_cons in Hr.
+        destruct (apply_op w0 o) as [w1|]; [|discriminate]. apply IH; assumption.
+    + rewrite run_app_op, Hr. exact E.
+  - intros a Ha. split; [apply H2|apply H3]; exact Ha. Qed.
